@@ -297,19 +297,31 @@ def shapeOk {α} (p : Parts) (b : Builder α) : Bool :=
   b.jump.isSome == p.jump.isSome && b.subId.isSome == p.subId.isSome
   && b.plainArgs.length == p.plainArgs.length && b.outputs.length == p.outputs.length
 
-def allSome {α} : List (Option α) → Option (List α)
-  | [] => some []
-  | none :: _ => none
-  | some v :: r => match allSome r with | some vs => some (v :: vs) | none => none
+/-- `jump_slots.chain(other_slots)` of `into_vec`: for every recorded position the number of slots it needs
+(a jump with a time argument takes two consecutive positions) -/
+def slotEnds (p : Parts) : List Nat :=
+  (match p.jump with
+   | some (i, .locTime) => [i + 2]
+   | some (i, .timeLoc) => [i + 2]
+   | some (i, .loc) => [i + 1]
+   | none => [])
+  ++ p.plainArgs.map (· + 1)
+  ++ (match p.subId with | some i => [i + 1] | none => [])
+  ++ p.outputs.map (·.1 + 1)
 
-/-- `IntrinsicBuilder::into_vec` -/
+/-- `num_slots`: `.max().unwrap_or(0).max(num_instr_args)`.  Positions are positions in the signature, which
+may have padding before a real parameter; the slots of padding parameters stay empty (since /repo 11ec667;
+before, the buffer had `num_instr_args` slots and `_S` indexed out of bounds) -/
+def numSlots (p : Parts) : Nat := Nat.max ((slotEnds p).foldl Nat.max 0) p.numInstrArgs
+
+/-- `IntrinsicBuilder::into_vec`: fill the slots, drop the never-filled ones (`.into_iter().flatten()`),
+`assert_eq!(out_args.len(), num_instr_args, "arg was not filled in! (bug)")` -/
 def intoVec {α} (asInt : α → α) (p : Parts) (b : Builder α) : Outcome (List α) :=
   if !shapeOk p b then .panic shapeSite else
-  match fill (List.replicate p.numInstrArgs none) (assigns asInt p b) with
+  match fill (List.replicate (numSlots p) none) (assigns asInt p b) with
   | .ok out =>
-    match allSome out with
-    | some vs => .ok vs
-    | none => .panic unfilledSite
+    let vs := out.filterMap id
+    if vs.length != p.numInstrArgs then .panic unfilledSite else .ok vs
   | .err c => .err c
   | .panic s => .panic s
 
@@ -405,10 +417,5 @@ def Parts.positions (p : Parts) : List Nat :=
   ++ p.plainArgs
   ++ (match p.subId with | some i => [i] | none => [])
   ++ p.outputs.map (·.1)
-
-/-- all padding comes after the last real parameter -/
-def noInteriorPadding : PAbi → Bool
-  | [] => true
-  | e :: es => if e.enc.isPadding then es.all (·.enc.isPadding) else noInteriorPadding es
 
 end TruthModel.AbiParts
